@@ -1,6 +1,6 @@
 """C14 Vectorised expression evaluation equals scalar SQL semantics (engine M over the MIR of src/array/ops.rs)."""
 import itertools, json, multiprocessing as mp, os, re, time
-from z3 import (And, Or, Not, If, BoolVal, BitVecVal, SignExt, ZeroExt, Extract, SRem, is_true, is_false, simplify, BitVec, Bool)
+from z3 import (is_fp, And, Or, Not, If, BoolVal, BitVecVal, SignExt, ZeroExt, Extract, SRem, is_true, is_false, simplify, BitVec, Bool)
 from vlib.common import Report, Inconclusive, rl, log
 from . import engine
 from .engine import make_vm, check, satisfiable, result_kind, find_fn
@@ -9,9 +9,9 @@ from .mir import MirSyntax
 from .arrays import sym_array, unpack_array
 from .natives import NATIVE_DOC, CRATE_CONTRACTS
 
-W = {'Int16': 16, 'Int32': 32, 'Int64': 64, 'Date': 32}
+W = {'Int16': 16, 'Int32': 32, 'Int64': 64, 'Date': 32, 'Float64': 64}
 INTS = ['Int16', 'Int32', 'Int64']
-SQLT = {'Bool': 'BOOLEAN', 'Int16': 'SMALLINT', 'Int32': 'INT', 'Int64': 'BIGINT', 'Date': 'DATE'}
+SQLT = {'Bool': 'BOOLEAN', 'Int16': 'SMALLINT', 'Int32': 'INT', 'Int64': 'BIGINT', 'Date': 'DATE', 'Float64': 'DOUBLE'}
 OPS_IMPL = r'^array::ops::<impl at src/array/ops\.rs:\d+:\d+: \d+:\d+>::%s$'
 
 
@@ -110,6 +110,82 @@ def spec_cast(tf, tt, rows):
     return null, And(va, sx(lo, wt, wf) != ra), lo
 
 
+# ---- DOUBLE operands.  A raw slot is 64 bits read as an IEEE double; an integer operand is converted exactly as SQL's
+# implicit numeric promotion does (round to nearest even).  Reference: IEEE 754 results (no error: overflow gives
+# +-inf), division by +0 / -0 is NULL, comparisons follow the total order every other part of the engine uses for DOUBLE
+# (ORDER BY, GROUP BY, join keys, MIN / MAX -- property C19): NaN = NaN, NaN greater than everything, -0 = +0.
+def fv(t, raw):
+    from z3 import fpBVToFP, fpSignedToFP, Float64, RNE
+    return fpBVToFP(raw, Float64()) if t == 'Float64' else fpSignedToFP(RNE(), raw, Float64())
+
+
+def spec_farith(k, ta, tb, rows):
+    from z3 import fpAdd, fpSub, fpMul, fpDiv, fpIsZero, RNE, FPVal, Float64
+    (ra, va), (rb, vb) = rows
+    null = Or(Not(va), Not(vb))
+    fa = fv(ta, ra)
+    if k == 'div':
+        zero = fpIsZero(fv(tb, rb)) if tb == 'Float64' else rb == 0
+        null = Or(null, zero)
+        # the divisor of a NULL row is irrelevant; written as the engine writes it so that equal terms are recognised
+        fb = If(zero, FPVal(1.0, Float64()), fv(tb, rb)) if tb == 'Float64' else fv(tb, If(zero, BitVecVal(1, W[tb]), rb))
+        return null, BoolVal(False), fpDiv(RNE(), fa, fb), BoolVal(False)
+    fb = fv(tb, rb)
+    return null, BoolVal(False), {'add': fpAdd, 'sub': fpSub, 'mul': fpMul}[k](RNE(), fa, fb), BoolVal(False)
+
+
+def spec_fcmp(k, ta, tb, rows):
+    from z3 import fpIsNaN, fpEQ, fpLT
+    (ra, va), (rb, vb) = rows
+    a, b = fv(ta, ra), fv(tb, rb)
+    eq = Or(And(fpIsNaN(a), fpIsNaN(b)), fpEQ(a, b))
+    lt = Or(And(Not(fpIsNaN(a)), fpIsNaN(b)), fpLT(a, b))
+    gt = Or(And(Not(fpIsNaN(b)), fpIsNaN(a)), fpLT(b, a))
+    v = {'eq': eq, 'ne': Not(eq), 'lt': lt, 'gt': gt, 'le': Or(lt, eq), 'ge': Or(gt, eq)}[k]
+    return Or(Not(va), Not(vb)), BoolVal(False), v, BoolVal(False)
+
+
+def spec_fneg(rows):
+    from z3 import fpNeg
+    (ra, va), = rows
+    return Not(va), BoolVal(False), fpNeg(fv('Float64', ra)), BoolVal(False)
+
+
+def spec_fselect(rows):
+    (rc, vc), (ra, va), (rb, vb) = rows
+    take = And(vc, rc)
+    return If(take, Not(va), Not(vb)), BoolVal(False), If(take, fv('Float64', ra), fv('Float64', rb)), BoolVal(False)
+
+
+def spec_fcast(tf, tt, rows):
+    from z3 import fpIsZero, FPVal, Float64
+    (ra, va), = rows
+    if tt == 'Float64':
+        val = fv(tf, ra) if tf != 'Bool' else If(ra, FPVal(1.0, Float64()), FPVal(0.0, Float64()))
+    else:     # DOUBLE -> BOOLEAN: non-zero (NaN included) is true
+        val = Not(fpIsZero(fv('Float64', ra)))
+    return Not(va), BoolVal(False), val, BoolVal(False)
+
+
+def float_arms():
+    out = []
+    F = 'Float64'
+    pairs = [(F, F)] + [(t, F) for t in INTS] + [(F, t) for t in INTS]
+    cmps = {'eq': '=', 'ne': '<>', 'gt': '>', 'lt': '<', 'ge': '>=', 'le': '<='}
+    for k, sym in cmps.items():
+        for ta, tb in pairs:
+            out.append((k, k, (ta, tb), lambda rows, k=k, ta=ta, tb=tb: spec_fcmp(k, ta, tb, rows), lambda a, b, sym=sym: [sym, a, b]))
+    for k, sym in {'add': '+', 'sub': '-', 'mul': '*', 'div': '/'}.items():
+        for ta, tb in pairs:
+            out.append((k, k, (ta, tb), lambda rows, k=k, ta=ta, tb=tb: spec_farith(k, ta, tb, rows), lambda a, b, sym=sym: [sym, a, b]))
+    out.append(('neg', 'neg', (F,), spec_fneg, lambda a: ['-', a]))
+    out.append(('select', 'select', ('Bool', F, F), spec_fselect, lambda c, a, b: ['if', c, a, b]))
+    for tf in ['Bool'] + INTS:
+        out.append(('cast', 'cast', (tf, 'to:' + F), lambda rows, tf=tf: spec_fcast(tf, F, rows), lambda a: ['cast', 'DOUBLE', a]))
+    out.append(('cast', 'cast', (F, 'to:Bool'), lambda rows: spec_fcast(F, 'Bool', rows), lambda a: ['cast', 'BOOLEAN', a]))
+    return out
+
+
 # ------------------------------------------------------------------------------------------------ obligations
 def arms(thorough):
     """(kernel, fn tail, operand variants, spec, replay expression builder)"""
@@ -132,7 +208,30 @@ def arms(thorough):
         out.append(('select', 'select', ('Bool', t, t), lambda rows, t=t: spec_select(t, rows) + (BoolVal(False),), lambda c, a, b: ['if', c, a, b]))
     for tf, tt in itertools.product(['Bool'] + INTS, ['Bool'] + INTS):
         out.append(('cast', 'cast', (tf, 'to:' + tt), lambda rows, tf=tf, tt=tt: spec_cast(tf, tt, rows) + (BoolVal(False),), lambda a, tt=tt: ['cast', SQLT[tt], a]))
-    return out
+    return out + float_arms()
+
+
+def bits_to_float(u):
+    import struct
+    return struct.unpack('<d', struct.pack('<Q', u & ((1 << 64) - 1)))[0]
+
+
+def float_text(x):
+    import math
+    if math.isnan(x):
+        return 'NaN'
+    if math.isinf(x):
+        return 'inf' if x > 0 else '-inf'
+    return repr(x)
+
+
+def fp_text(model, val):
+    """A Float64 term under a model, as text ('NaN', 'inf', '-inf', '-0.0', '1.5e300' ...)."""
+    from z3 import fpToIEEEBV, fpIsNaN
+    if is_true(model.eval(fpIsNaN(val), model_completion=True)):
+        return 'f64:NaN'
+    u = model.eval(fpToIEEEBV(val), model_completion=True).as_long()
+    return 'f64:' + float_text(bits_to_float(u))
 
 
 def run_arm(task):
@@ -198,6 +297,8 @@ def run_arm(task):
                     v = model.eval(val, model_completion=True)
                     if is_true(v) or is_false(v):
                         exp.append(bool(is_true(v)))
+                    elif is_fp(v):
+                        exp.append(fp_text(model, val))
                     else:
                         x, wd = v.as_long(), v.size()
                         exp.append(x - (1 << wd) if x >= 1 << (wd - 1) else x)
@@ -256,6 +357,8 @@ def replay(kname, tys, witness, expected, expr_fn, release=False):
     ci = 0
     if 'Date' in ops:
         return replay_dates(kname, ops, witness, expected, expr_fn, release)
+    if 'Float64' in ops or any(t == 'to:Float64' for t in tys):
+        return replay_floats(kname, ops, witness, expected, expr_fn, release)
     for i, t in enumerate(ops):
         ty = 'INT' if t == 'Bool' else SQLT[t]
         cols += ['%s_raw %s' % ('abc'[i], ty), '%s_nul %s' % ('abc'[i], ty)]
@@ -312,6 +415,64 @@ def replay(kname, tys, witness, expected, expr_fn, release=False):
             elif norm(e) != g:
                 rep = True
     return {'reproduced': rep, 'how': how}
+
+
+def replay_floats(kname, ops, witness, expected, expr_fn, release):
+    """DOUBLE operands: the table holds the doubles themselves (cast from their shortest text, 'NaN', 'inf'); NULL rows are
+    NULL (the raw slot under a NULL cannot be set from SQL).  Integer operands keep the raw + NULL-or-0 construction."""
+    import math
+    n = len([k for k in witness if k.startswith('a')])
+    cols, exprs, ci = [], [], 0
+    for i, t in enumerate(ops):
+        if t == 'Float64':
+            cols.append('%s_v double' % 'abc'[i])
+            exprs.append('$0.%d' % ci)
+            ci += 1
+        else:
+            ty = 'INT' if t == 'Bool' else SQLT[t]
+            cols += ['%s_raw %s' % ('abc'[i], ty), '%s_nul %s' % ('abc'[i], ty)]
+            e = ['+', '$0.%d' % ci, '$0.%d' % (ci + 1)]
+            exprs.append(['cast', 'BOOLEAN', e] if t == 'Bool' else e)
+            ci += 2
+    setup = ['create table r(%s)' % ', '.join(cols)]
+    for j in range(n):
+        vals = []
+        for i, t in enumerate(ops):
+            w = witness['%s%d' % ('abc'[i], j)]
+            if t == 'Float64':
+                vals.append("cast('%s' as double)" % float_text(bits_to_float(w['raw'])) if w['valid'] else 'NULL')
+            else:
+                raw = (1 if w['raw'] else 0) if t == 'Bool' else w['raw']
+                vals += [str(raw), '0' if w['valid'] else 'NULL']
+        setup.append('insert into r values (%s)' % ', '.join(vals))
+    from relsmt.sexp import show
+    plan = show(['proj', ['list', expr_fn(*exprs)], ['scan', '$0', ['list'] + ['$0.%d' % k for k in range(ci)], 'true']])
+    out, rc, err = rl('planrun', {'setup': setup, 'plans': [plan]}, release=release)
+    res = [o for o in out if 'plan' in o]
+    how = {'setup': setup, 'plan': plan, 'driver_profile': 'release' if release else 'dev'}
+    if not res:
+        return {'reproduced': None, 'how': how, 'note': 'replay did not run: ' + err[-200:]}
+    o = res[0]
+    got = 'PANIC' if o.get('panicked') else ('ERROR' if not o.get('ok') else [r[0] for r in o['rows']])
+    how['engine'], how['expected'] = got, expected
+    if isinstance(got, str):
+        return {'reproduced': True, 'how': how}          # no DOUBLE arm has an erroneous input
+
+    def same(g, e):
+        if e is None or g is None:
+            return e is None and g is None
+        if isinstance(e, bool):
+            return g == ('true' if e else 'false')
+        if isinstance(e, str) and e.startswith('f64:'):
+            try:
+                x, y = float(g), float(e[4:])
+            except ValueError:
+                return False
+            if math.isnan(x) or math.isnan(y):
+                return math.isnan(x) and math.isnan(y)
+            return x == y and math.copysign(1, x) == math.copysign(1, y)
+        return str(e) == g
+    return {'reproduced': any(not same(g, e) for g, e in zip(got, expected)) or len(got) != len(expected), 'how': how}
 
 
 def replay_dates(kname, ops, witness, expected, expr_fn, release):
